@@ -73,7 +73,7 @@ static void blk_crls(void) {
 		for (int q = 0; q < 7; q++) { time_t d; const uint8_t *ee; size_t eel; r = x509_crl_find_revoked_cert_by_serial_number(crl, cl, SER[q].b, SER[q].n, &d, &ee, &eel); int want = q < 4 && (mask & (1 << q)); vh_eval(vh_mix(mask * 100 + q + 201));
 			if ((r == 1) != want) { char key[128]; snprintf(key, sizeof key, "C15:crl:lookup:%s:serial=%s", r == 1 ? "reported-revoked-but-not-listed" : "listed-but-not-reported", vh_hex(SER[q].b, SER[q].n)); vh_viol(key, "\"mask\":%d,\"ret\":%d", mask, r); }
 			else if (r == 1 && d != rd + q) vh_viol("C15:crl:lookup:wrong-revocation-date", "\"mask\":%d,\"q\":%d", mask, q); }
-		r = x509_crl_verify(crl, cl, &CK[1], IDS[sid].p, IDS[sid].n); vh_eval(vh_mix(mask * 2 + sid + 301)); if (r != 1) vh_viol("C15:crl:verify-own", "\"mask\":%d", mask);
+		r = x509_signed_verify(crl, cl, &CK[1], IDS[sid].p, IDS[sid].n); vh_eval(vh_mix(mask * 2 + sid + 301)); if (r != 1) vh_viol("C15:crl:verify-own", "\"mask\":%d", mask);
 		verify_matrix("crl", crl, cl, &CK[1], sid); if (mask == 5 || mask == 0) bitflips("crl", crl, cl, &CK[1], sid, 1);
 		vh_sample("{\"block\":\"crls\",\"listed_mask\":%d,\"signer_id\":%d,\"crllen\":%zu}", mask, sid, cl); }
 }
